@@ -151,9 +151,46 @@ def build(u):
               'text': '    proof { lemma_blank_run_bound(input.spec_bytes(), 0); }'},
          ])
 
-    u.stub(LEX, r'^pub\(crate\) fn count_leading_whitespace\(', name='count_leading_whitespace', kx='lexscan::count_leading_whitespace',
-           ensures=['r == blank_run(input.spec_bytes(), 0)',
-                    'is_char_boundary(input.spec_bytes(), r as int)'])
+    # count_leading_whitespace: the byte loop is verified; the cold non-ASCII path (str slicing + chars().take_while().map().sum(),
+    # outside Verus' subset) is one call expression, replaced (D11) by a function with an ASSUMED contract.
+    u.raw('''
+// D11 call-site stub for `count_unicode_whitespace(input[count..].chars())`.  ASSUMED (bounded discharge: KX lexscan, NX lexnx
+// tokspec_small).  The requires keeps the panic obligation of `input[count..]` (slicing off a character boundary panics).
+#[verifier::external_body]
+fn count_unicode_whitespace_from(input: &str, from: usize) -> (r: usize)
+    requires from <= input.spec_bytes().len(), is_char_boundary(input.spec_bytes(), from as int)
+    ensures r == blank_run(input.spec_bytes(), from as int), is_char_boundary(input.spec_bytes(), from + r),
+{ unimplemented!() }
+''')
+    u.assume('D11: in count_leading_whitespace the call `count_unicode_whitespace(input[count..].chars())` (cold path for the first non-ASCII byte) is '
+             'replaced by a stub with the assumed contract "length of the maximal blank prefix from `count`, ending on a character boundary"; '
+             'count_unicode_whitespace itself (iterator adapters) is not verified by Verus - KX lexscan (bounded) and NX lexnx tokspec_small check it')
+    u.fn(LEX, r'^pub\(crate\) fn count_leading_whitespace\(', name='count_leading_whitespace',
+         requires=['input.spec_bytes().len() <= u32::MAX'],
+         ensures=['r == blank_run(input.spec_bytes(), 0)',
+                  'is_char_boundary(input.spec_bytes(), r as int)'],
+         edits=[('for &b in input.as_bytes() {', 'for b in input.as_bytes() {\n        let b = *b;', 'D10'),
+                ('count_unicode_whitespace(input[count..].chars())', 'count_unicode_whitespace_from(input, count)', 'D11')],
+         opens_with='    let ghost bs = input.spec_bytes();\n    proof { lemma_str_valid(input); }',
+         loops=[{
+             'keyword': 'for', 'iter_name': 'it',
+             'invariant_except_break': ['count == it.index@'],
+             'invariant': [
+                 'it.history@.len() == it.index@', '0 <= it.index@ <= bs.len()',
+                 'forall|j: int| 0 <= j < it.index@ ==> *it.history@[j] == bs[j]',
+                 'bs == input.spec_bytes()', 'valid_utf8(bs)', 'bs.len() <= u32::MAX',
+                 'count <= bs.len()', 'all_ascii_blank(bs, count as int)',
+             ],
+             'ensures': ['count == bs.len() || (count < bs.len() && 0x20 < bs[count as int] <= 0x7F)'],
+         }],
+         hints=[
+             {'at': 'return count + count_unicode_whitespace_from', 'where': 'before',
+              'text': '                proof { lemma_blank_prefix(bs, count as int); lemma_ascii_prefix_boundary(bs, count as int); '
+                      'lemma_blank_run_bound(bs, count as int); }'},
+             {'at': '    count\n}', 'where': 'before',
+              'text': '    proof { lemma_blank_prefix(bs, count as int); lemma_ascii_prefix_boundary(bs, count as int); }'},
+         ])
+    u.assume('D10: `for &b in input.as_bytes()` is emitted as `for b in input.as_bytes() { let b = *b; ...` (Verus takes no reference pattern in a for loop; same values)')
     u.stub(LEX, r'^fn lex_token\(', name='lex_token', kx='lexops+lextable+lexcomplex',
            requires=['args.offset <= args.input.spec_bytes().len()'], ensures=LEX_TOKEN_ENSURES)
     u.stub(LEX, r'^fn lex_asm_token\(', name='lex_asm_token', kx='lexops+lextable+lexcomplex',
